@@ -504,14 +504,18 @@ class MP4Tags(DictProxy, Tags):
             if size == 0:
                 # extends to the end of the file, nothing to update
                 continue
-            if size == 1:  # 64bit
-                # skip name (4B) and read size (8B)
-                size = cdata.ulonglong_be(read_full(fileobj, 12)[4:])
-                fileobj.seek(atom.offset + 8)
-                fileobj.write(cdata.to_ulonglong_be(size + delta))
-            else:  # 32bit
-                fileobj.seek(atom.offset)
-                fileobj.write(cdata.to_uint_be(size + delta))
+            try:
+                if size == 1:  # 64bit
+                    # skip name (4B) and read size (8B)
+                    size = cdata.ulonglong_be(read_full(fileobj, 12)[4:])
+                    fileobj.seek(atom.offset + 8)
+                    fileobj.write(cdata.to_ulonglong_be(size + delta))
+                else:  # 32bit
+                    fileobj.seek(atom.offset)
+                    fileobj.write(cdata.to_uint_be(size + delta))
+            except cdata.error:
+                raise MP4MetadataError(
+                    "invalid size of atom %r" % atom.name)
 
     def __update_offset_table(self, fileobj, fmt, atom, delta, offset):
         """Update offset table in the specified atom."""
